@@ -2,7 +2,7 @@
 import math
 from fractions import Fraction
 from .. import tlc, laws
-from ..common import EXACT_EMBS, DEC_EMBS
+from ..common import EXACT_EMBS, DEC_EMBS, EXTREME_EMBS
 LEVEL = "model_checking"
 
 RULE = ("M: HeatKernel.tla -- persim.heat as a state machine, exact in integers at sigma = 1/(8 ln 2) (one action per iteration of the double loop, three kernel evaluations, clamped squared norm): PartialIsDef, ResultIsKernelFormula, SquaredNormNonNegative (the clamp only absorbs rounding), ZeroBetweenReorderings, Symmetric, DiagonalPointsIgnored, TranslationInvariant, Triangle (decided on the squares), InputsUntouched, for every pair of lattice diagrams within the constants. R: every pair TLC enumerated, with the numerator of the squared norm, is run through the real function under exact embeddings and decided by TraceHeat.tla with the model's own operators (1e-9). V: Exact anchor: on lattice diagrams with sigma = 1/(8 ln 2) the kernel is k(F,G) = (ln2/pi) * sum 2^-|p-q|^2 - 2^-|p-mirror(q)|^2, "
@@ -41,16 +41,20 @@ def run(ctx):
         specs.append(dict(session=sess, fn="heat", emb=(embs[i % len(embs)] if i % 3 else [DEC_EMBS[0], EXACT_EMBS[0], DEC_EMBS[0], DEC_EMBS[2]][(i // 3) % 4]), sigma_t=sig_anchor, anchor=1, aux=[], zerotol=Fraction(n, 10 ** 6) / Fraction(math.sqrt(8 * math.pi * sig_anchor))))
     for i in range(14 if quick else 120):
         sigma_t = rng.choice([0.05, 0.4, 1.0, 2.5, 5.0])
-        sess = laws.make_session(rng, 3, 14 if quick else 40, rng.choice([6, 12, 30]), neg=(i % 4 == 3), with_empty=(i % 2 == 0))
+        # (every third session is translated far along the diagonal, and the embeddings include the scales 2^-50 .. 2^60: persistence tiny
+        #  relative to the coordinates, or tiny / huge in absolute terms, on BOTH sides of the comparison with the Wasserstein distance)
+        sess = laws.make_session(rng, 3, 14 if quick else 40, rng.choice([6, 12, 30]), neg=(i % 4 == 3), with_empty=(i % 2 == 0), far=(i % 3 == 1))
         n = max(len(d) for d in sess)
-        specs.append(dict(session=sess, fn="heat", emb=embs[i % len(embs)], sigma_t=sigma_t, anchor=0, aux=["W"],
+        specs.append(dict(session=sess, fn="heat", emb=(embs + EXACT_EMBS[4:6] + EXTREME_EMBS)[i % (len(embs) + 4)] if i % 3 != 1 else EXACT_EMBS[i % 4], sigma_t=sigma_t, anchor=0, aux=["W"],
                           zerotol=Fraction(n, 10 ** 6) / Fraction(math.sqrt(8 * math.pi * sigma_t))))
     # argument objects: fresh float arrays per call, or ONE set of float64 arrays / integer-dtype arrays / nested lists (of floats, of ints)
     # shared by all calls of the session; half of the shared sessions are then overwritten in place with doubled coordinates and evaluated
     # again (a value remembered per argument OBJECT instead of per argument VALUE shows there)
     for i, sp in enumerate(specs):
-        sp["container"] = [None, "array", "int", "list", "intlist", "array", "int"][i % 7]
+        sp["container"] = laws.pick_container(rng, sp, [None, "array", "int", "list", "intlist", "uint8", "int16", "uint16", "int8", "int32"])
         sp["edit"] = int(bool(sp["container"]) and i % 2 == 0)
+        if sp["container"] in laws.NARROW:
+            sp["edit"] = 0      # (doubling in place could leave the dtype\'s range)
     laws.run_sessions(ctx, specs, "V")
 
 
